@@ -178,7 +178,7 @@ def jobs(tier, seed, mode="language"):
     out = []
     quick = tier == "quick"
     L = 3 if quick else 4
-    shapes = ["G-NU", "G-UC", "G-NULL3", "G-DUP", "G-DUP2", "G-HEADLESS", "G-NB"] if quick else ["G-NU", "G-UC", "G-NULL3", "G-DUP", "G-DUP2", "G-HEADLESS", "G-NUC", "G-CAT", "G-LR", "G-DEAD", "G-TRI", "G-PAL", "G-MUT"]
+    shapes = ["G-NU", "G-UC", "G-NULL3", "G-DUP", "G-DUP2", "G-HEADLESS", "G-NB", "G-FIN", "G-2CYC"] if quick else ["G-NU", "G-UC", "G-NULL3", "G-DUP", "G-DUP2", "G-HEADLESS", "G-NUC", "G-CAT", "G-LR", "G-DEAD", "G-TRI", "G-PAL", "G-MUT"]
     groups = [["trim", "cotrim", "binarize", "separate_start", "separate_terminals", "rename", "renumber"],
               ["nullaryremove", "nullaryremove(binarize=False)"],
               ["nullaryremove(trim=False)", "nullaryremove(binarize=False,trim=False)"],
